@@ -84,11 +84,11 @@ func (a *Analyzer) onStateChange(n *nodeState, r *ev.Rec) {
 			}
 		}
 		a.sample("election", fmt.Sprintf("%s leader of term %d with %d/%d grants produced (%s)", n.key, st.Term, got, len(vs), cfgString(cfg)))
-		if got < majority(len(vs)) {
+		if got < majority(len(vs)) && !a.isWire(n.key.nid) {
 			a.find("C01", "leader-without-majority-of-grants", "", r.Q, "%s becomes leader of term %d with %d grants produced by voters of %s (needs %d)", n.key, st.Term, got, cfgString(cfg), majority(len(vs)))
 		}
 		// C11
-		if cfg == nil || !cfg.IsVoter(n.key.nid) {
+		if (cfg == nil || !cfg.IsVoter(n.key.nid)) && !a.isWire(n.key.nid) {
 			a.find("C11", "non-voter-becomes-leader", "", r.Q, "%s becomes leader of term %d without being a voter in %s", n.key, st.Term, cfgString(cfg))
 		}
 		// C02 (c): the new leader holds every entry whose commit was observed
@@ -227,13 +227,26 @@ func (a *Analyzer) onRPC(n *nodeState, r *ev.Rec) {
 		accepted := r.Res != "staleTerm" && r.Res != "readErr" && r.Res != ""
 		if accepted && !a.isWire(r.Src) && !a.Universe {
 			lk := leaderKey{cid, r.ReqTerm}
-			if l, ok := a.leaderOf[lk]; !ok || l != r.Src {
+			if l, ok := a.leaderOf[lk]; !ok || (l != r.Src && a.alias[l] != r.Src) {
 				a.find("C01", "request-accepted-from-non-leader", "", r.Q, "%s accepted %s of term %d from %d, which never became leader of that term (leader: %v)", n.key, r.RPC, r.ReqTerm, r.Src, a.leaderOf[lk])
 			}
 			a.stat("leader-requests-checked")
 		}
 		if r.RPC == "append" && r.Res == "success" {
 			a.stat("append-acks")
+			// engine B: an acknowledged request's entries are in the log
+			if w := a.lastWire; w != nil && w.RPC == "append" && w.Src == r.Src && w.ReqTerm == r.ReqTerm && w.A == r.A {
+				for _, we := range w.Log {
+					if we.Index <= st.Snap {
+						continue
+					}
+					if le, ok := n.log[we.Index]; !ok || le.term != we.Term || le.hash != we.Hash {
+						a.find("C04", "acknowledged-entries-not-in-log", "", r.Q, "%s acknowledged a request of %d (term %d) carrying entry (%d,t%d) but its log holds %s there", n.key, r.Src, r.ReqTerm, we.Index, we.Term, describe(le, ok))
+						break
+					}
+				}
+				a.stat("acknowledged-requests-compared-with-log")
+			}
 			// (an acknowledgement of entries that are not flushed is judged where it
 			// matters: at the leader's commit advance (C06 checkDurability) and at
 			// the restart after a crash (C10 acknowledged-entry-lost))
